@@ -23,6 +23,17 @@ THEOREMS = [
     "C19_digit_segment_is_key_at_root",
     "C19_merge_keeps_child_fields",
     "C19_clear_is_default",
+    # every history (no guard on the bodies), interleavings of snapshot handling, invariants of all reachable states
+    "C19_refines_dict_memory_every_history",
+    "C19_live_dict_differs_only_on_raising_bodies",
+    "C19_backends_agree_until_a_body_raises",
+    "C19_snapshot_mutations_unobservable",
+    "C19_reads_unobservable",
+    "C19_write_back_installs_snapshot",
+    "C19_type_never_changes",
+    "C19_typed_fields_fixed",
+    "C19_set_then_get_on_stores",
+    "C19_set_leaves_other_keys",
 ]
 EXPLANATION = (
     "One Lean model (WfModel/StateStore.lean) of JSON values, the path walkers (traverse_path_step/assign_path_step/"
